@@ -1268,7 +1268,80 @@ def run(ctx) -> None:
         rep.flush()
         phase("end_to_end_and_trace_validation")
         wide_catalog(ctx, yaw, root)
+        conditioning(ctx, yaw, root)
         ctx.exhaustive = False
+
+
+def exact_jackknife_cov(samples: np.ndarray) -> np.ndarray:
+    """(N-1)/N sum_k (x_k - mean)(x_k - mean)^T of the float samples in exact rational arithmetic."""
+    from fractions import Fraction
+
+    n, nb = samples.shape
+    rows = [[Fraction(float(v)) for v in r] for r in samples]
+    mean = [sum(r[j] for r in rows) / n for j in range(nb)]
+    out = np.zeros((nb, nb))
+    for a in range(nb):
+        for b in range(a, nb):
+            v = Fraction(n - 1, n) * sum((r[a] - mean[a]) * (r[b] - mean[b]) for r in rows)
+            out[a, b] = out[b, a] = float(v)
+    return out
+
+
+def conditioning(ctx, yaw, root) -> None:
+    """Covariance and error of samples whose scatter is tiny relative to their value (tightly
+    clustered jackknife samples: gridded mocks, large almost uniform patch sums).  Oracle: the
+    delete-one jackknife formula evaluated exactly (rationals) on the reported float samples;
+    tolerance = the rounding of the samples themselves (a few ulp of the largest value), which
+    a mean-subtracting implementation meets and a sum-of-squares one does not."""
+    import pandas as pd
+
+    rng = np.random.default_rng(ctx.seed + 5)
+    binning = yaw.Binning(np.array([0.1, 0.4, 0.7, 1.0]))
+    cases = {}
+    for n in (2, 5, 40):
+        cases[f"offset_1e4_scatter_1e-6_n{n}"] = 1e4 + 1e-6 * rng.standard_normal((n, 3))
+        cases[f"offset_1e7_scatter_10_n{n}"] = 1e7 + np.round(10 * rng.standard_normal((n, 3)))
+        cases[f"identical_rows_n{n}"] = np.tile(np.array([[0.1, 1234.5678, 3e-7]]), (n, 1))
+        cases[f"one_column_constant_n{n}"] = np.column_stack([np.full(n, 7.3), rng.standard_normal(n), 1e3 + 1e-3 * rng.standard_normal(n)])
+    products = []
+    for name, smp in cases.items():
+        for kind in ("CorrData", "RedshiftData"):
+            obj = getattr(yaw, kind)(binning, smp.mean(axis=0), smp)
+            products.append((kind, name, obj, smp))
+    # a gridded catalog: every patch holds the same weight per bin, so the histogram samples are all equal
+    NP = 6
+    pid = np.repeat(np.arange(NP), 6)
+    df = pd.DataFrame(dict(ra=10.0 + 2.0 * pid + np.tile(np.arange(6) * 0.1, NP), dec=np.tile(np.arange(6) * 0.05, NP),
+                           w=np.tile([0.1, 0.2, 0.3, 0.1, 0.2, 0.3], NP), z=np.tile([0.2, 0.2, 0.5, 0.5, 0.8, 0.8], NP), pid=pid))
+    cat = yaw.Catalog.from_dataframe(root / "grid", df, ra_name="ra", dec_name="dec", weight_name="w", redshift_name="z", patch_name="pid",
+                                     overwrite=True, max_workers=1)
+    cfg = yaw.Configuration.create(rmin=0.1, rmax=1.0, unit="deg", edges=[0.1, 0.4, 0.7, 1.0])
+    hist = yaw.HistData.from_catalog(cat, cfg, max_workers=1)
+    products.append(("HistData", "gridded_catalog_equal_patches", hist, np.asarray(hist.samples, dtype=np.float64)))
+    products.append(("HistData", "gridded_catalog_equal_patches_normalised", hist.normalised(), None))
+    eps = np.finfo(np.float64).eps
+    for kind, name, obj, smp in products:
+        smp = np.asarray(obj.samples, dtype=np.float64)
+        ctx.evaluated(1, ("conditioning", kind, name))
+        ctx.validated(1)
+        with np.errstate(all="ignore"), warnings.catch_warnings():
+            warnings.simplefilter("ignore")
+            cov = np.asarray(obj.covariance)
+            err = np.asarray(obj.error)
+        want = exact_jackknife_cov(smp)
+        n = smp.shape[0]
+        xmax = float(np.max(np.abs(smp)))
+        # rounding of a deviation x_k - mean is O(eps * xmax); of a product of two deviations O(eps * xmax * |dev|)
+        dev = np.sqrt(np.clip(np.diag(want), 0, None) * n / max(n - 1, 1)) + 16 * eps * xmax
+        tol_cov = 1e-9 * np.abs(want) + 64 * eps * xmax * n * np.add.outer(dev, dev)
+        detail = dict(product=kind, input_class=name, samples=smp.tolist(), covariance=cov.tolist(), error=err.tolist(),
+                      expected_covariance=want.tolist())
+        if cov.shape != want.shape or not np.all(np.abs(cov - want) <= tol_cov):
+            ctx.violation("C03|SampledData.covariance|tightly_clustered_samples|not_delete_one_jackknife_covariance", detail)
+        werr = np.sqrt(np.clip(np.diag(want), 0, None))
+        tol_err = 1e-9 * werr + 64 * eps * xmax * math.sqrt(n)
+        if err.shape != werr.shape or not np.all(np.isfinite(err)) or not np.all(np.abs(err - werr) <= tol_err):
+            ctx.violation("C03|SampledData.error|tightly_clustered_samples|not_sqrt_of_covariance_diagonal", dict(detail, expected_error=werr.tolist()))
 
 
 def wide_catalog(ctx, yaw, root) -> None:
